@@ -5,6 +5,7 @@
      "flat"    credit tensors M[a][i][j] in units of 1/den, ordered / unordered, partial_credit on / off, 1-3 answer lists
      "group"   every valid grouping (inputs -> groups) with nested ListGraders, fixed credit patterns
      "nested"  two groups of two inputs (both interleavings), every 0/1 credit table, all flag combinations
+     "rect"    unordered groups of 2x3, 2x4, 3x2 inputs with partial group credits (low cell credits decide the pairing)
      "gmap"    every valid grouping of up to 8 inputs: the group map and the Groupify / Ungroupify laws only
    Two-level enumeration: Init picks seeds, Next picks one case per step. *)
 EXTENDS ListGrading
@@ -114,6 +115,47 @@ NestSeeds == [kind : {"seed"}, g : (IF Tier = "quick" THEN {<<1, 2, 1, 2>>} ELSE
 NestCases(s) == [kind : {"nested"}, g : {s.g}, outOrd : {s.flags[1]}, inOrd : {s.flags[2]}, pcOut : {s.flags[3]}, pcIn : {s.flags[4]},
                  first : {s.first}, rest : [1..2 -> Rows(4, 1)]]
 
+\* part "rect": unordered outer ListGrader over G groups of s inputs with G # s allowed (2x3, 2x4, 3x2), inner ListGraders
+\* with PARTIAL group credits: input p earns B[p][h] (units of 1/den) against the answer of slot h that has p's own index
+\* within its group, nothing against the other answers -- so the credit of cell (k, h) is the sum over the group's
+\* inputs of B[.][h], every value 0..s occurs, and low cell credits decide the pairing of groups with answer slots.
+RectShape(G, s, lay, inOrd, pcIn, den, heads, nrest) ==
+  [G |-> G, s |-> s, lay |-> lay, inOrd |-> inOrd, pcIn |-> pcIn, den |-> den, heads |-> heads, nrest |-> nrest, pcOut |-> TRUE]
+NoOuterPartial(x) == [x EXCEPT !.pcOut = FALSE]
+BRows(G, den) == [1..G -> 0..den]
+H2 == {<<<<0, 1>>, <<0, 0>>>>, <<<<1, 0>>, <<0, 1>>>>, <<<<0, 0>>, <<0, 0>>>>, <<<<1, 1>>, <<0, 1>>>>}
+H2b == {<<<<0, 1>>, <<1, 0>>>>, <<<<0, 0>>, <<1, 0>>>>}
+H4 == {<<<<0, 1>>, <<0, 0>>, <<1, 0>>, <<0, 0>>>>, <<<<1, 0>>, <<0, 1>>, <<0, 0>>, <<0, 1>>>>}
+H3 == {<<<<0, 1, 0>>, <<0, 0, 0>>, <<1, 0, 0>>>>, <<<<0, 0, 1>>, <<0, 1, 0>>, <<0, 0, 0>>>>}
+Hhalf == {<<<<0, 1>>, <<2, 0>>, <<0, 0>>, <<1, 1>>>>, <<<<1, 0>>, <<0, 1>>, <<0, 2>>, <<0, 0>>>>, <<<<0, 0>>, <<0, 1>>, <<1, 0>>, <<0, 0>>>>}
+RectShapes ==
+  IF Tier = "quick" THEN
+    { RectShape(2, 3, "block", TRUE, TRUE, 1, H2, 4), RectShape(2, 3, "inter", TRUE, TRUE, 1, H2b, 4),
+      NoOuterPartial(RectShape(2, 3, "block", TRUE, TRUE, 1, H2b, 4)),
+      RectShape(2, 3, "block", FALSE, TRUE, 1, H2b, 4), RectShape(2, 3, "block", TRUE, FALSE, 1, H2b, 4),
+      RectShape(2, 3, "block", TRUE, TRUE, 2, Hhalf, 2),
+      RectShape(2, 4, "block", TRUE, TRUE, 1, H4, 4), RectShape(2, 4, "inter", TRUE, TRUE, 1, {<<<<0, 1>>, <<1, 0>>, <<0, 0>>, <<0, 0>>>>}, 4),
+      RectShape(3, 2, "block", TRUE, TRUE, 1, H3, 3) }
+  ELSE
+    { RectShape(2, 3, "block", TRUE, TRUE, 1, {<<r>> : r \in BRows(2, 1)}, 5), RectShape(2, 3, "inter", TRUE, TRUE, 1, H2, 4),
+      NoOuterPartial(RectShape(2, 3, "block", TRUE, TRUE, 1, H2, 4)), NoOuterPartial(RectShape(2, 4, "block", TRUE, TRUE, 1, H4, 4)),
+      RectShape(2, 3, "block", FALSE, TRUE, 1, H2, 4), RectShape(2, 3, "block", TRUE, FALSE, 1, H2, 4),
+      RectShape(2, 3, "block", TRUE, TRUE, 2, Hhalf, 2), RectShape(2, 3, "inter", FALSE, TRUE, 2, Hhalf, 2),
+      RectShape(2, 4, "block", TRUE, TRUE, 1, {h1 \o h2 : h1 \in H2, h2 \in H2b}, 4), RectShape(2, 4, "inter", TRUE, TRUE, 1, H4, 4),
+      RectShape(2, 4, "block", FALSE, TRUE, 1, H4, 4),
+      RectShape(3, 2, "block", TRUE, TRUE, 1, H3, 3), RectShape(3, 2, "inter", FALSE, TRUE, 1, H3, 3) }
+RectSeeds == UNION {[kind : {"seed"}, G : {x.G}, s : {x.s}, lay : {x.lay}, inOrd : {x.inOrd}, pcIn : {x.pcIn}, den : {x.den},
+                     head : x.heads, nrest : {x.nrest}, pcOut : {x.pcOut}] : x \in RectShapes}
+RectCases(s) == [kind : {"rect"}, G : {s.G}, s : {s.s}, lay : {s.lay}, outOrd : {FALSE}, inOrd : {s.inOrd}, pcOut : {s.pcOut}, pcIn : {s.pcIn},
+                 den : {s.den}, head : {s.head}, rest : [1..s.nrest -> BRows(s.G, s.den)]]
+RectGrouping(x) == [p \in 1..(x.G * x.s) |-> IF x.lay = "block" THEN ((p - 1) \div x.s) + 1 ELSE ((p - 1) % x.G) + 1]
+\* B = head \o rest has one row per input (were fewer rows enumerated they would repeat cyclically)
+RectTable(x) == LET B == x.head \o x.rest
+                    g == RectGrouping(x)
+                    N == x.G * x.s
+                IN TLCEval([p \in 1..N |-> TLCEval([q \in 1..N |->
+                     IF ((q - 1) % x.s) + 1 = IndexInGroup(g, p) THEN B[((p - 1) % Len(B)) + 1][((q - 1) \div x.s) + 1] ELSE 0])])
+
 \* part "gmap": every valid grouping of N inputs into G >= 2 groups, group map only (no credits)
 GmapMaxN == IF Tier = "quick" THEN 6 ELSE 8
 PreLen(N) == IF N >= 6 THEN 3 ELSE 2
@@ -123,14 +165,17 @@ GmapCases(s) == IF s.G > s.N THEN {}
                         Range(x.pre \o x.rest) = 1..x.G}
 
 (* ------------------------------------------------------------------ the model *)
-Seeds == IF Part = "flat" THEN FlatSeeds ELSE IF Part = "group" THEN GroupSeeds ELSE IF Part = "gmap" THEN GmapSeeds ELSE NestSeeds
+Seeds == IF Part = "flat" THEN FlatSeeds ELSE IF Part = "group" THEN GroupSeeds ELSE IF Part = "gmap" THEN GmapSeeds
+         ELSE IF Part = "rect" THEN RectSeeds ELSE NestSeeds
 CasesFor(s) == IF Part = "flat" THEN FlatCases(s) ELSE IF Part = "group" THEN GroupCases(s)
-               ELSE IF Part = "gmap" THEN GmapCases(s) ELSE NestCases(s)
+               ELSE IF Part = "gmap" THEN GmapCases(s) ELSE IF Part = "rect" THEN RectCases(s) ELSE NestCases(s)
 \* derived data of a case: aux = credit tensor / table in units, and the layout
-CaseDen(x) == IF x.kind = "flat" THEN x.den ELSE IF x.kind = "group" THEN 2 ELSE 1
-CaseGrouping(x) == IF x.kind = "group" THEN GroupingOf(x) ELSE IF x.kind = "gmap" THEN x.pre \o x.rest ELSE x.g
+CaseDen(x) == IF x.kind \in {"flat", "rect"} THEN x.den ELSE IF x.kind = "group" THEN 2 ELSE 1
+CaseGrouping(x) == IF x.kind = "group" THEN GroupingOf(x) ELSE IF x.kind = "gmap" THEN x.pre \o x.rest
+                   ELSE IF x.kind = "rect" THEN RectGrouping(x) ELSE x.g
 CaseTable(x) == IF x.kind = "flat" THEN UnitTensor(x)
                 ELSE IF x.kind = "group" THEN Pattern(GroupingOf(x), x.pat)
+                ELSE IF x.kind = "rect" THEN RectTable(x)
                 ELSE x.first \o x.rest
 CaseTree(x) == IF x.kind = "flat" THEN FlatTree(RatTensor(UnitTensor(x), x.den), CfgOf(x))
                ELSE TreeOf(CaseGrouping(x), x.outOrd, x.inOrd, x.pcOut, IF x.kind = "group" THEN TRUE ELSE x.pcIn, CaseTable(x), CaseDen(x))
@@ -155,7 +200,7 @@ Cfg == CfgOf(c)
 \* that holds for the generators in every case holds for every permutation
 TestPerms(n) == {[i \in 1..n |-> IF i = 1 THEN 2 ELSE IF i = 2 THEN 1 ELSE i], [i \in 1..n |-> (i % n) + 1]}
 
-IsLayout == IsCase /\ c.kind \in {"group", "nested"}
+IsLayout == IsCase /\ c.kind \in {"group", "nested", "rect"}
 LawNonEmpty == IsCase /\ c.kind # "gmap" => out # {}
 \* every allowed vector: one entry per input, all from one answer list, every answer used exactly once, ordered => in place
 LawShape == IsFlatCore => \A r \in Allowed(MR, Cfg) :
